@@ -61,6 +61,9 @@ def build_project(pdesc, path):
                     fh.write(json.dumps(jd["doc"]))
         for rel, mt in jd.get("meta_mt", {}).items():
             stamps.append((os.path.join(job.path, rel), mt))
+        for rel, mode in jd.get("modes", {}).items():        # permission bits of user files (chmod keeps the mtime)
+            if os.path.isfile(os.path.join(job.path, rel)):
+                os.chmod(os.path.join(job.path, rel), mode)
     if pdesc.get("pdoc") is not None:
         project.document.reset(pdesc["pdoc"])
         if not os.path.exists(os.path.join(path, FN_PDOC)):
@@ -113,6 +116,45 @@ def snap_project(path, order=None):
         pos = {i: k for k, i in enumerate(order)}
         ws = sorted(ws, key=lambda kn: pos.get(kn[0], len(pos)))      # stable: unknown ids keep scan order
     return {"top": top, "ws": ws, "rest": rest}
+
+
+PERM_DEFAULT = 0o644
+
+
+def snap_modes(root):
+    """{(is_dst, workspace path as a tuple): st_mode & 07777} for every regular file (no links) of both workspaces."""
+    import stat
+
+    out = {}
+    for is_dst, side in ((False, "src"), (True, "dst")):
+        ws = os.path.join(root, side, "workspace")
+        for dp, _, fns in os.walk(ws):
+            for fn in fns:
+                st = os.lstat(os.path.join(dp, fn))
+                if stat.S_ISREG(st.st_mode):
+                    rel = os.path.relpath(os.path.join(dp, fn), ws)
+                    out[(is_dst, tuple(rel.split(os.sep)))] = stat.S_IMODE(st.st_mode)
+    return out
+
+
+def coq_perm_rows(before, after):
+    rows = []
+    for key in sorted(set(before) | set(after)):
+        b, a = before.get(key, PERM_DEFAULT), after.get(key, PERM_DEFAULT)
+        if b != PERM_DEFAULT or a != PERM_DEFAULT:
+            rows.append("{| pr_dst := %s; pr_path := %s; pr_before := %d; pr_after := %d |}" % (
+                coq_bool(key[0]), coq_list([coq_str(x) for x in key[1]], "str"), b, a))
+    return coq_list(rows, "perm_row")
+
+
+def preserve_kwargs(opts):
+    """opts['preserve'] = 'p' (preserve_permissions) | 'pt' (permissions and times); collect_stats at project level."""
+    kw = {}
+    if opts.get("preserve"):
+        kw["preserve_permissions"] = True
+        if opts["preserve"] == "pt":
+            kw["preserve_times"] = True
+    return kw
 
 
 def strip_mt(node):
@@ -352,6 +394,9 @@ def _do_call_inner(desc, src, dst, strategy, doc_sync, exclude, opts, entry):
                           parallel=opts.get("parallel", False))
             if "follow_symlinks" in opts:
                 kwargs["follow_symlinks"] = opts["follow_symlinks"]
+            kwargs.update(preserve_kwargs(opts))
+            if opts.get("collect_stats"):
+                kwargs["collect_stats"] = True
             if entry == "Project.sync":
                 dst.sync(src, **kwargs)
             else:
@@ -365,6 +410,7 @@ def _do_call_inner(desc, src, dst, strategy, doc_sync, exclude, opts, entry):
                           dry_run=opts.get("dry_run", False))
             if "follow_symlinks" in opts:
                 kwargs["follow_symlinks"] = opts["follow_symlinks"]
+            kwargs.update(preserve_kwargs(opts))
             if kind == "Job.sync":
                 dj.sync(sj, **kwargs)
             else:
@@ -437,7 +483,9 @@ def run_scenario(desc, prop):
         objs, primed = apply_history(desc, main, ids_s, ids_d, opts)       # before the "before" snapshot
         excl_before = list(objs[2]) if objs is not None and isinstance(objs[2], list) else None
         s0, d0, ok0 = observe(main, order_s, order_d)
+        modes0 = snap_modes(main)
         exn1 = do_call(desc, main, ids_s, ids_d, opts, objs)
+        modes1 = snap_modes(main)
         if excl_before is not None and (objs[2] != excl_before or list(objs[2]) != list(opts.get("exclude") or [])):
             ok0 = False                                       # the caller's exclude list was modified
         s1, d1, ok1 = observe(main, order_s, order_d)
@@ -533,11 +581,15 @@ def run_scenario(desc, prop):
         json_values(snap["top"], vals)
     if entry not in ("Project.sync", "sync_projects"):
         vals.append(entry[2])
-    coq = "{| cs_ftab := %s; cs_case := {| c_in := %s; c_obs := %s; c_again := %s; c_ref := %s |} |}" % (
+    coq = "{| cs_ftab := %s; cs_case := {| c_in := %s; c_obs := %s; c_again := %s; c_ref := %s |}; cs_perm := %s |}" % (
         coq_ftab(vals), inp, coq_obs(exn1, s1, d1, rest1),
-        coq_opt(coq_obs(*again) if again else None), coq_opt(coq_obs(*ref) if ref else None))
+        coq_opt(coq_obs(*again) if again else None), coq_opt(coq_obs(*ref) if ref else None),
+        coq_perm_rows(modes0, modes1))
     changed = strip_order(d1) != strip_order(d0)
+    perm_changes = {("dst/" if k[0] else "src/") + "/".join(k[1]): [oct(modes0.get(k, PERM_DEFAULT)), oct(modes1.get(k, PERM_DEFAULT))]
+                    for k in sorted(set(modes0) | set(modes1)) if k in modes0 and k in modes1 and modes0[k] != modes1[k]}
     obs = {"exception": exn1, "priming_call_exception": primed, "dst_changed": changed, "src_changed": strip_order(s1) != strip_order(s0),
+           "permission_bits_changed_on_existing_files": perm_changes,
            "dst_after": {"top": plain_tree(d1["top"]), "workspace": plain_tree(d1["ws"])},
            "repeat": None if again is None else {"exception": again[0], "dst_changed_again": strip_order(again[2]) != strip_order(d1)},
            "companion": None if ref is None else {"exception": ref[0], "dst_equal_to_main_run": strip_order(ref[2]) == strip_order(d1)}}
@@ -554,9 +606,13 @@ def run_scenario(desc, prop):
     if has_links(desc):
         kinds.append("symlinks(unmodelled)")
         kinds.append("follow_symlinks=" + str(opts.get("follow_symlinks", True)))
-    for flag in ("recursive", "deep", "dry_run", "parallel"):
+    for flag in ("recursive", "deep", "dry_run", "parallel", "collect_stats"):
         if opts.get(flag):
             kinds.append(flag)
+    if opts.get("preserve"):
+        kinds.append("preserve=" + opts["preserve"])
+    if any(j.get("modes") for side in ("src", "dst") for j in desc[side]["jobs"]):
+        kinds.append("permission-bits")
     if opts.get("exclude"):
         kinds.append("exclude")
     if opts.get("selection") is not None:
@@ -582,7 +638,10 @@ TOP_FILES = ["x", "y.txt", "log.out", "data.bin"]
 NESTED = ["sub/y", "sub/x", "sub/deep/z", "other/w", "other/lvl2/lvl3/v"]
 EMPTY_DIRS = ["emp", "sub/emp2"]
 EDGE_FILES = ["tags", ".git/cfg", "sub/CVS", "signac_statepoint.json.bak", "signac_job_documentXjson", "sub/signac_job_document.json",
-              "sub/signac_statepoint.json"]
+              "sub/signac_statepoint.json", "signac", "json", "state", "document"]
+# ordinary names that are proper substrings (prefix / infix / suffix) of the job's own two file names
+OWN_SUBSTRINGS = ["signac", "state", "json", "point.json", "signac_statepoint.jso", "t", "document", "job", "ignac_job_document.json", "_"]
+MODES = [0o755, 0o600, 0o664, 0o700, 0o640]         # owner read/write always set: the outcome does not depend on the uid
 DOC_KEYS = ["a", "b", "c", "n", "m"]
 SCALARS = [0, 1, 2, 1.0, 2.5, True, False, None, "s", "t", "", [1, 2], [1, 2.0], []]
 
@@ -668,6 +727,9 @@ def rand_job_pair(rng, sp, p):
             dj["doc"] = perturb_doc(rng, sj["doc"], depth, p["dconflict"])
         else:
             dj["doc"] = rand_doc(rng, depth) if rng.random() < 0.8 else {}
+    if rng.random() < p.get("modes", 0.15):               # permission bits other than the umask default, on either side
+        for jd in (sj, dj):
+            jd["modes"] = {n: rng.choice(MODES) for n in sorted(jd["files"]) if rng.random() < 0.5}
     if dj.get("doc") and rng.random() < p.get("stale", 0.05):
         dj["files"][FN_DOC + "~"] = [rng.choice(['{"old": 1}', "xx"]), rng.choice(MTIMES)]    # stale backup file
     if rng.random() < p.get("funny", 0.03) and sj["files"]:
@@ -822,6 +884,8 @@ def rand_scenario(rng, prop):
         opts["dry_run"] = True
     if rng.random() < p["deep"]:
         opts["deep"] = True
+    if rng.random() < p.get("preserve", 0.15):
+        opts["preserve"] = rng.choice(["p", "pt"])
     if rng.random() < p["job_entry"] and (src["jobs"] or dst["jobs"]):
         entry = rand_job_entry(rng, src, dst)
     else:
@@ -830,6 +894,8 @@ def rand_scenario(rng, prop):
             opts["selection"] = rand_selection(rng, src, dst)
         if rng.random() < p["parallel"]:
             opts["parallel"] = rng.choice([2, True])
+        if rng.random() < 0.1:
+            opts["collect_stats"] = True
     return {"src": src, "dst": dst, "opts": opts, "entry": entry}
 
 
@@ -1231,4 +1297,68 @@ def core_ignores_cases():
                             opts["deep"] = True
                         out.append({"src": {"jobs": [{"sp": {"a": 0}, "files": sfiles, "dirs": []}]},
                                     "dst": {"jobs": [{"sp": {"a": 0}, "files": dfiles, "dirs": []}]}, "opts": opts, "entry": entry})
+    return out
+
+
+def core_ownname_cases(dries=(False,)):
+    """Top-level user files whose names are proper substrings of the job's own file names ('state', 'json', 'signac',
+    'point.json', 'document', ...): source-only / differing / identical, under every document strategy (DocSync.COPY
+    changes which of the two own files take part in the walk), strategy, entry point."""
+    out = []
+    for variant in range(4):
+        for ds in (None, "copy", "update", "nosync"):
+            for strat in (None, "always", "never"):
+                for entry in ("Project.sync", ["sync_jobs", {"a": 0}, {"a": 0}]):
+                    for dry in dries:
+                        sfiles, dfiles = {}, {"only_dst": ["D", 1000]}
+                        for k, n in enumerate(OWN_SUBSTRINGS):
+                            kind = 0 if variant == 3 else (k + variant) % 3
+                            sfiles[n] = ["S%d" % k, 2000]
+                            if kind == 1:
+                                dfiles[n] = ["D", 1000]
+                            elif kind == 2:
+                                dfiles[n] = list(sfiles[n])
+                        opts = {"strategy": strat, "recursive": False, "check_schema": False, "doc_sync": ds}
+                        if dry:
+                            opts["dry_run"] = True
+                        out.append({"src": {"jobs": [{"sp": {"a": 0}, "files": sfiles, "dirs": [], "doc": {"k": 1}}]},
+                                    "dst": {"jobs": [{"sp": {"a": 0}, "files": dfiles, "dirs": [], "doc": {"d": 2}}]},
+                                    "opts": opts, "entry": entry})
+    return out
+
+
+def core_perm_cases(dries=(False, True)):
+    """Permission bits: counterpart files with different bits (differing content / identical content), source-only and
+    destination-only files with non-default bits, nested, a job that is cloned; x preserve_permissions / preserve_times x
+    dry run x strategy x entry point.  A copy carries the source's bits, nothing else may change a bit."""
+    out = []
+    for preserve in (None, "p", "pt"):
+        for dry in dries:
+            for strat in (None, "always", "never", "update"):
+                for entry in ("Project.sync", "sync_projects", ["Job.sync", {"a": 0}, {"a": 0}], ["sync_jobs", {"a": 0}, {"a": 0}]):
+                    for conflict in ((True, False) if strat is None else (True,)):
+                        sj = {"sp": {"a": 0}, "dirs": [], "doc": {"k": {"n": 1}},
+                              "files": {"same.sh": ["echo", 1000], "only_src.sh": ["x", 1000], "sub/n.sh": ["new", 2000], "plain": ["P", 1000]},
+                              "modes": {"same.sh": 0o755, "only_src.sh": 0o700, "sub/n.sh": 0o755}}
+                        dj = {"sp": {"a": 0}, "dirs": [], "doc": {"k": {"m": 2}},
+                              "files": {"same.sh": ["echo", 1000], "only_dst.sh": ["y", 1000], "sub/n.sh": ["old version", 1000]},
+                              "modes": {"same.sh": 0o600, "only_dst.sh": 0o640, "sub/n.sh": 0o600}}
+                        if conflict:
+                            sj["files"]["run.sh"], sj["modes"]["run.sh"] = ["#!/bin/sh new", 2000], 0o755
+                            dj["files"]["run.sh"], dj["modes"]["run.sh"] = ["#!/bin/sh old version", 1000], 0o600
+                            sj["files"]["newer_at_dst"] = ["S", 1000]
+                            dj["files"]["newer_at_dst"], dj["modes"]["newer_at_dst"] = ["DD", 2000], 0o664
+                        else:
+                            del dj["files"]["sub/n.sh"], dj["modes"]["sub/n.sh"]
+                            dj["dirs"] = ["sub"]
+                        cl = {"sp": {"a": 1}, "dirs": [], "files": {"tool": ["T", 1000], "d/e": ["E", 1000]}, "modes": {"tool": 0o755, "d/e": 0o600}}
+                        opts = {"strategy": strat, "recursive": True, "check_schema": False}
+                        if preserve:
+                            opts["preserve"] = preserve
+                        if dry:
+                            opts["dry_run"] = True
+                        if entry == "sync_projects":
+                            opts["parallel"] = 2
+                            opts["collect_stats"] = True
+                        out.append({"src": {"jobs": [sj, cl]}, "dst": {"jobs": [dj]}, "opts": opts, "entry": entry})
     return out
